@@ -25,7 +25,8 @@ Require Import Cirbo.Model.Eval Cirbo.Model.TseytinAlg.
 Require Import Cirbo.Generated.CircuitCore Cirbo.Proofs.CircuitCoreGen Cirbo.Proofs.CircuitCoreGen2.
 Require Import Cirbo.Model.Traverse Cirbo.Model.Bench Cirbo.Generated.CircuitAlgos Cirbo.Proofs.CircuitAlgosGen
         Cirbo.Proofs.CircuitAlgosGen2 Cirbo.Proofs.CircuitAlgosGen3 Cirbo.Proofs.CircuitAlgosGen4
-        Cirbo.Proofs.CircuitAlgosGen5 Cirbo.Proofs.CircuitAlgosGen6 Cirbo.Proofs.CircuitAlgosGenSum.
+        Cirbo.Proofs.CircuitAlgosGen5 Cirbo.Proofs.CircuitAlgosGen6 Cirbo.Proofs.CircuitAlgosGen7
+        Cirbo.Proofs.CircuitAlgosGenSum.
 
 Theorem C02_empty_wf : WF empty_circuit /\ inputs_nullary empty_circuit.
 Proof. exact Inv_empty. Qed.
@@ -282,6 +283,56 @@ Theorem C02_slice_corner :
   gen_make_block_from_slice 4 slice_corner "B" [] ["a"; "b"] = Err CreateBlockError /\
   make_block_from_slice slice_corner "B" [] ["a"; "b"] = Err GateDoesntExistError.
 Proof. exact slice_corner_real. Qed.
+
+(* replace_subcircuit (T10).  inputs_mapping / outputs_mapping are Python dicts: association lists with unique keys;
+   uuid.uuid4().hex is the next element of the stream `fresh` (the model takes the one value it needs);
+   the four fuel parameters are those of make_block_from_slice, of top_sort on the new subcircuit, and of the final
+   cycle check (all_gates_fuel c = traverse_fuel c (all gate labels), and the unused top_sort fuel of dfs), each
+   applied to the state the callee runs on, as the model does.  The method calls make_block_from_slice, so the same
+   corner is inherited: rs_agree g h := g = h, or both raise GateDoesntExistError / CreateBlockError (possibly a
+   different one of the two).  WF c is used for: unique gate keys after the renamings (slice), unique block keys
+   (_remove_block). *)
+Theorem C02_replace_subcircuit_regenerated : forall c sub imap omap f rest,
+  WF c -> keys_ok sub -> NoDup (dkeys imap) -> NoDup (dkeys omap) ->
+  rs_agree (gen_replace_subcircuit size_fuel size_fuel all_gates_fuel size_fuel c sub imap omap (f :: rest))
+           (replace_subcircuit c sub imap omap f).
+Proof. exact replace_subcircuit_regenerated. Qed.
+
+Theorem C02_rs_agree_spec : forall g h : res circuit,
+  rs_agree g h <->
+  (g = h \/
+   (exists e1 e2, g = Err e1 /\ h = Err e2 /\
+      (e1 = GateDoesntExistError \/ e1 = CreateBlockError) /\ (e2 = GateDoesntExistError \/ e2 = CreateBlockError))).
+Proof. exact rs_agree_spec. Qed.
+
+Theorem C02_rs_agree_consequences : forall g h : res circuit, rs_agree g h ->
+  (forall c', g = Ok c' <-> h = Ok c') /\ is_ok g = is_ok h.
+Proof. exact rs_agree_consequences. Qed.
+
+(* non-vacuity of the hypotheses of the regeneration theorems: a well-formed circuit, a replacement whose mappings
+   have unique keys; the regenerated replace_subcircuit returns, and returns the model's circuit *)
+Definition C02_ex_base : circuit :=
+  mkCircuit ["a"; "b"] ["h"]
+            [("a", mkGate INPUT []); ("b", mkGate INPUT []); ("g", mkGate AND ["a"; "b"]); ("h", mkGate NOT ["g"])]
+            [("a", ["g"]); ("b", ["g"]); ("g", ["h"])] [].
+Definition C02_ex_sub : circuit :=
+  mkCircuit ["x"; "y"] ["z"]
+            [("x", mkGate INPUT []); ("y", mkGate INPUT []); ("z", mkGate OR ["x"; "y"])]
+            [("x", ["z"]); ("y", ["z"])] [].
+
+Example C02_regeneration_example :
+  WF C02_ex_base /\ keys_ok C02_ex_sub /\
+  exists c', gen_replace_subcircuit size_fuel size_fuel all_gates_fuel size_fuel C02_ex_base C02_ex_sub
+               [("a", "x"); ("b", "y")] [("g", "z")] ["u1"] = Ok c' /\
+             replace_subcircuit C02_ex_base C02_ex_sub [("a", "x"); ("b", "y")] [("g", "z")] "u1" = Ok c' /\
+             size c' = 4 /\
+             gen_dfs (traverse_fuel_of None false) size_fuel c' None false true no_abort
+             = traverse DFS false c' None true no_abort.
+Proof.
+  split; [apply C02_wfb_sound; vm_compute; reflexivity|].
+  split; [apply nodupb_NoDup; vm_compute; reflexivity|].
+  eexists. split; [vm_compute; reflexivity|]. split; [vm_compute; reflexivity|]. split; vm_compute; reflexivity.
+Qed.
 
 (* non-vacuity: a history through 11 kinds of calls (a left connection of another circuit, the
    bench conversion of an LT gate, block removal, ...) whose side conditions hold, which runs to
